@@ -262,4 +262,24 @@ theorem operand_lengths_source_eq_model (a : Args) (n : Int) :
    DurGen.td_to_microseconds_eq n⟩
 example : Gen.Duration.td_native_microseconds (-1) 86399 999999 = -1 := by decide
 
+/-! ## Interval operands, either side (`Interval.__add__/__radd__/__sub__/__rsub__/__mul__/__rmul__` delegate through `as_duration()`) -/
+
+theorem ofUs_native (n : Int) : (ofUs n).native = n := by
+  rw [ofUs, mk_native]; simp [Args.part, Td.ofArgs]
+
+/-- an `Interval` operand enters every operator as `as_duration()` = `Duration(microseconds = n)` (n its native length),
+    on either side: `Interval ± x`, `timedelta + Interval`, `timedelta - Interval`, `Interval * k`, `k * Interval`
+    have exactly the native lengths (`Drv/C10.lean` routes `V` operands through `asDuration = ofUs` on both sides) -/
+theorem interval_operand_native (n m k : Int) :
+    (add (ofUs n) m).native = Td.add n m ∧ (sub (ofUs n) m).native = Td.sub n m ∧
+    Td.sub m (ofUs n).native = Td.sub m n ∧ (mulInt (ofUs n) k).native = Td.mulInt n k := by
+  have ha := (add_native { us := n } (Other.td m)).1
+  have hs := (sub_native { us := n } (Other.td m)).1
+  have hm := (mulInt_native { us := n } k).1
+  have hn := ofUs_native n
+  simp only [ofUs] at hn ⊢
+  rw [hn] at ha hs hm
+  exact ⟨ha, hs, by rw [hn], hm⟩
+example : (add (ofUs 5) 7).native = 12 ∧ (mulInt (ofUs (-5)) 3).native = -15 := by decide
+
 end Pendulum.Props.C10
